@@ -191,7 +191,11 @@ func CheckC09(s Script, tr Trace) error {
 		if s.maximal(lens, o.Snap[0], len(o.Snap)) {
 			continue
 		}
+		// Lower bound of the moment slice k-1 was written to the output (the timer restarts
+		// after that): not before its last element was read from the input, and not before
+		// the output channel (capacity c) had room, i.e. not before slice k-1-c was received.
 		base := int64(0)
+		why := "creation"
 		if k > 0 {
 			prev := tr.Outs[k-1].Snap
 			last := prev[len(prev)-1]
@@ -199,9 +203,18 @@ func CheckC09(s Script, tr Trace) error {
 				return nil // contents broken: belongs to C03
 			}
 			base = tr.WStart[last]
+			why = fmt.Sprintf("the write of the last element of slice #%d started at %dns", k-1, base)
+			c := 1
+			if s.Kind != KindV1Join {
+				c = 1 + s.InCap
+			}
+			if j := k - 1 - c; j >= 0 && tr.Outs[j].At > base {
+				base = tr.Outs[j].At
+				why = fmt.Sprintf("slice #%d could enter the output channel (capacity %d) only after slice #%d was received at %dns", k-1, c, j, base)
+			}
 		}
 		if o.At < base+s.Timeout {
-			return fmt.Errorf("slice #%d (%d elements, not maximal, not final) was delivered at %dns, earlier than Timeout=%dns after the previous slice (its last element was written at %dns)", k, len(o.Snap), o.At, s.Timeout, base)
+			return fmt.Errorf("slice #%d (%d elements, not maximal, not final) was delivered at %dns, earlier than Timeout=%dns after the previous slice was delivered (%s)", k, len(o.Snap), o.At, s.Timeout, why)
 		}
 	}
 	return nil
@@ -397,7 +410,7 @@ func CheckC16(s Script, tr Trace) error {
 
 // CheckC19 : no goroutine of the discipline after termination.
 func CheckC19(s Script, tr Trace) error {
-	if tr.NewErr != "" || tr.Deadlock != "" {
+	if tr.NewErr != "" {
 		return nil
 	}
 	if tr.ClosedAt < 0 && tr.StopReturnedAt < 0 {
